@@ -26,7 +26,8 @@ META = dict(
            "sqrt, atan2, sin, cos, exp, x^7, x^(1/3) -> uninterpreted functions with sign/range/monotonicity-vs-1 axioms"],
     bounds=["Lab: all 2^24 colours", "CIEDE2000: all real Lab pairs in [0,100] x [-128,128]^2 (each)", "real model of doubles; tolerance of the property 0.05, obligations use 1e-6"],
     outside=["numeric values of the transcendental functions (equivalence with the CIE formula is decided, by congruence)",
-             "'zero only for identical colours' (needs magnitudes); symmetry is decided in the thorough tier only",
+             "'zero only for identical colours' (needs magnitudes); symmetry in the arguments is NOT decided (the two-run encoding needs parity / periodicity "
+             "of the uninterpreted sin/cos/atan2; replays do compare both argument orders concretely)",
              "the CIE constants (6/29)^3, 841/108 are used in their customary rounded form 0.008856 / 7.787 (difference < 5e-5 in Lab)"],
     trusted=["z3 (nlsat for the radicand obligation)", "vf/ref.py CIE reference, validated against Sharma-Wu-Dalal Table 1 (34 pairs) on every run"],
     assumptions=["doubles as reals"],
@@ -38,7 +39,9 @@ def jobs(tier):
     n = 14
     for i in range(n):
         js.append(dict(kind="de", shard=[i, n, 12]))
-    if tier == "thorough":
+    if __import__("os").environ.get("VERIF_C11_SYM") == "1":
+        # symmetry dE(a,b) == dE(b,a): two runs under uninterpreted sin/cos/atan2 need parity/periodicity reasoning that the
+        # instance axioms provided here do not give the solvers (59 of 647 obligations 'unknown' in 20 min): in neither tier
         for i in range(n):
             js.append(dict(kind="de-sym", shard=[i, n, 12]))
     return js
